@@ -385,12 +385,16 @@ def check(ctx, rep):
     # resolver normalises the path while trailing blanks are still attached, and they are stripped only here -- so
     # the test has to come after the strip and before the first return
     strip = [a for a in gn.body if isinstance(a, ast.Assign) and norm(a.targets[0]) == 'dos_name' and norm(a.value).startswith('self._get_dos_name_defext(')]
-    dots = [n for n in gn.body if isinstance(n, ast.If) and isinstance(n.test, ast.Compare) and norm(n.test.left) == 'dos_name' and isinstance(n.test.ops[0], ast.In)
-            and sorted(ctx.fold(n.test.comparators[0]) or ()) == [b'.', b'..'] and isinstance(n.body[0], ast.Raise)]
+    dots = [n for n in gn.body if isinstance(n, ast.If) and isinstance(n.test, ast.Compare) and isinstance(n.test.ops[0], ast.In)
+            and isinstance(n.test.left, ast.Call) and norm(n.test.left.func) == 'self._codepage.bytes_to_unicode' and n.test.left.args and norm(n.test.left.args[0]) == 'dos_name'
+            and sorted(ctx.fold(n.test.comparators[0]) or ()) == [u'.', u'..'] and isinstance(n.body[0], ast.Raise)]
+    bytes_only = [n for n in gn.body if isinstance(n, ast.If) and isinstance(n.test, ast.Compare) and norm(n.test.left) == 'dos_name' and isinstance(n.test.ops[0], ast.In)]
     first_ret = min([r.lineno for r in own_nodes(gn) if isinstance(r, ast.Return)] or [0])
     later_mods = [a for a in own_nodes(gn) if isinstance(a, ast.Assign) and norm(a.targets[0]) == 'dos_name' and dots and a.lineno > dots[0].lineno
                   and not (isinstance(a.value, ast.Subscript) and norm(a.value) == 'dos_name[:-1]')]
-    rep.ob('native-name.never-a-dot-entry', 'after trailing blanks are stripped, a name that is `.` or `..` is refused before anything is returned',
+    if bytes_only and not dots:
+        rep.note('native-name.dot-test-on-bytes', 'the dot-entry test compares bytes: undefined double-byte sequences convert to nothing, so .<81><ad>. becomes .. after the test')
+    rep.ob('native-name.never-a-dot-entry', 'after trailing blanks are stripped, a name whose converted form is `.` or `..` is refused before anything is returned',
            len(strip) == 1 and len(dots) == 1 and strip[0].lineno < dots[0].lineno < first_ret and not later_mods,
            'a path element such as ".. " survives the normalisation of the path and is joined to the native path as "..": OPEN ".. \\FILE" reads outside the mount',
            ctx.where(gn))
@@ -453,8 +457,10 @@ def variants(ctx):
            in_fn('DiskDevice._get_native_reldir', lambda fn: mu.replace_stmt(fn, mu.text_is('cwd = cwd[:-1]'), 'cwd = cwd + [os.pardir]')), expect='resolver.clamped'),
         Va('none-mount-falls-back-to-cwd', 'break', FILES,
            in_fn('Files._normalise_params', lambda fn: mu.replace_expr(fn, lambda n: isinstance(n, ast.UnaryOp) and norm(n) == 'not key', 'not key or not value', count=1)), expect='mount.none'),
+        Va('dot-entry-tested-on-bytes', 'break', DISK,
+           in_fn('DiskDevice._get_native_name', lambda fn: mu.replace_expr(fn, lambda n: isinstance(n, ast.Compare) and 'bytes_to_unicode(dos_name' in norm(n.left) and "'..'" in norm(n), "dos_name in (b'.', b'..')", count=1)), expect='native-name.never-a-dot'),
         Va('dot-entry-after-strip-accepted', 'break', DISK,
-           in_fn('DiskDevice._get_native_name', lambda fn: mu.remove_stmt(fn, lambda st: isinstance(st, ast.If) and norm(st.test) == "dos_name in (b'.', b'..')")), expect='native-name.never-a-dot'),
+           in_fn('DiskDevice._get_native_name', lambda fn: mu.remove_stmt(fn, lambda st: isinstance(st, ast.If) and 'bytes_to_unicode(dos_name' in norm(st.test) and "'..'" in norm(st.test))), expect='native-name.never-a-dot'),
         Va('normpath-after-consuming', 'break', DISK, in_fn('DiskDevice._get_native_reldir', _normpath_late), expect='resolver.order'),
         Va('elements-not-resolved', 'break', DISK,
            in_fn('DiskDevice._get_native_reldir', lambda fn: mu.replace_expr(fn, lambda n: isinstance(n, ast.Call) and norm(n.func) == 'self._get_native_name',
